@@ -111,6 +111,8 @@ type Sink struct {
 	samples   []any
 	sampled   map[string]int
 	Direct    []map[string]any // failures decided on the Go side (panics, races, ...)
+	Filter    map[string]any   // replay: keep only the cases that agree with this case on ReplayKeys
+	ReplayKeys []string
 	Extra     map[string]any
 	perClassSamples int
 }
@@ -124,6 +126,13 @@ func NewSink(prop, dir, header, caseType, modelOK, specOK string) *Sink {
 // Add records one executed case. term: Coq term of type CaseType; js: JSON description (for replays and
 // samples); class: distribution bucket; nontrivial: by the engine's stated rule.
 func (s *Sink) Add(term string, js map[string]any, class string, nontrivial bool) int {
+	if s.Filter != nil {
+		for _, k := range s.ReplayKeys {
+			if fmt.Sprint(s.Filter[k]) != fmt.Sprint(js[k]) {
+				return -1
+			}
+		}
+	}
 	idx := len(s.terms)
 	s.terms = append(s.terms, term)
 	js["class"] = class
@@ -144,7 +153,31 @@ func (s *Sink) Add(term string, js map[string]any, class string, nontrivial bool
 	return idx
 }
 
+// LoadReplay reads the case of a replay file; generation then runs as usual and only matching cases are kept
+func (s *Sink) LoadReplay(path string, keys []string) error {
+	b, err := os.ReadFile(path)
+	if err != nil {
+		return err
+	}
+	var r struct {
+		Case map[string]any `json:"case"`
+	}
+	if err := json.Unmarshal(b, &r); err != nil {
+		return err
+	}
+	s.Filter = r.Case
+	s.ReplayKeys = keys
+	return nil
+}
+
 func (s *Sink) Fail(js map[string]any, what string) {
+	if s.Filter != nil {
+		for _, k := range s.ReplayKeys {
+			if fmt.Sprint(s.Filter[k]) != fmt.Sprint(js[k]) {
+				return
+			}
+		}
+	}
 	js["what"] = what
 	s.Direct = append(s.Direct, js)
 }
